@@ -72,6 +72,30 @@ func (g *Gen) bigInt() *big.Int {
 
 func genC10(g *Gen) {
 	g.setMode(0)
+	// every special coefficient (zero included) at eight consecutive exponents in three places of the range, and at the
+	// exponents where the integer conversions change path
+	g.encodingGrid(0.06, func(x d128.Decimal) {
+		for _, ty := range []string{"int64", "int32", "uint64", "uint32"} {
+			te := Ev{"op": "ToInt", "ty": ty}
+			te.setDec("x", x)
+			g.emit(te)
+		}
+		e := Ev{"op": "Int"}
+		e.setDec("x", x)
+		g.emit(e)
+	})
+	zexp := []int{1, 9, 10, 18, 19, 20, 21, 38, 39, 100, 6111, -1, -19, -20, -34, -35, -36, -6176}
+	g.gridRun(len(zexp)*len(gridCoefs), 0.08, func(i int) {
+		x := mk(g.r.Intn(2) == 0, gridCoefs[i%len(gridCoefs)], zexp[i/len(gridCoefs)])
+		for _, ty := range []string{"int64", "int32", "uint64", "uint32"} {
+			te := Ev{"op": "ToInt", "ty": ty}
+			te.setDec("x", x)
+			g.emit(te)
+		}
+		e := Ev{"op": "Rat"}
+		e.setDec("x", x)
+		g.emit(e)
+	})
 	// long integers K * 10^j + tail under every DefaultRoundingMode (the rounding test matrix, gen_grid.go)
 	lg := tailGrid(longJs)
 	g.gridRun(len(lg), 0.25, func(i int) {
@@ -258,6 +282,28 @@ func (g *Gen) decForFloat() d128.Decimal {
 func genC09(g *Gen) {
 	g.setMode(0)
 	precs := []int{-1, 0, 1, 2, 24, 53, 64, 100, 113, 114, 115, 128, 200, 1000}
+	// floats at the boundaries of the integer types and of the float formats themselves, both signs
+	fs := []float64{0x1p31, 0x1p31 - 1, 0x1p32, 0x1p32 - 1, 0x1p53, 0x1p53 + 2, 0x1p62, 0x1p63, 0x1p63 - 1024, 0x1p63 + 2048, 0x1p64, 0x1p64 - 2048, 0x1p64 + 4096,
+		0x1p127, 0x1p128, 0x1p113, 0x1p112, 1e15, 1e16, 1e22, 1e23, 0x1p-1022, 0x1p-1074, 0x1p-149, 0x1p-126, math.MaxFloat64, math.MaxFloat32, 0.1, 0.5, 1}
+	g.gridRun(len(fs)*2, 0.05, func(i int) {
+		f := fs[i/2]
+		if i%2 == 1 {
+			f = -f
+		}
+		g.emit(Ev{"op": "FromFloat64", "f": f64Rec(f)})
+		if math.Abs(f) <= math.MaxFloat32 && float64(float32(f)) == f {
+			g.emit(Ev{"op": "FromFloat32", "f": f32Rec(float32(f))})
+		}
+	})
+	// coefficients with the leading digits of a word boundary (2^64 .. 2^256 and their tenths) at magnitudes where the
+	// conversion's wide intermediate is about to wrap
+	tot := []int{20, 39, 58, 77, 78, 79, 100, 155, 200, 300, 308}
+	g.gridRun(len(boundaryWords)*len(tot), 0.12, func(i int) {
+		c := g.boundaryCoefOf(boundaryWords[i%len(boundaryWords)])
+		x := mk(g.r.Intn(2) == 0, c, tot[i/len(boundaryWords)]-len(c.String()))
+		g.un("Float64", x)
+		g.un("Float32", x)
+	})
 	g.floatEdgeGrid(0.3, func(x d128.Decimal) {
 		g.un("Float64", x)
 		g.un("Float32", x)
